@@ -182,8 +182,9 @@ Inductive sq_step :=
 | SqEnd (status : Z)                 (* end_squery: user callback + free *)
 | SqSend (q : squery) (n : name).    (* ares_search_next sent this candidate *)
 
-(* ares_search_next with a send that was accepted (ares_send_nolock did not fail after having
-   called the callback - that path is property C01's defect and is excluded here) *)
+(* ares_search_next.  A send that fails inside ares_send_nolock has already delivered its status
+   to search_callback, so it is just another outcome [o i] of that candidate (the double
+   completion on ARES_EFORMERR was property C01's defect, fixed upstream of this model) *)
 Definition search_next (q : squery) : outcome sq_step :=
   match nth_error (sq_names q) (sq_next q) with
   | None => Ok (SqEnd ARES_EFORMERR)          (* misuse check *)
